@@ -6,7 +6,7 @@ static bool is_prefix(const Bytes &d, const Bytes &s) { return d.size() <= s.siz
 static Bytes concat(const std::vector<Bytes> &v) { Bytes o; for (auto &x : v) { o.insert(o.end(), x.begin(), x.end()); } return o; }
 
 static const int LENS[] = { 1, 2, 15, 16, 17, 31, 32, 33, 255, 256, 257, 1000, 4096, 16383, 16384, 16385, 20000 };
-static const char *MUT[] = { "flip", "flip", "flip", "flip", "trunc", "extend", "setlen", "type", "ver", "drop", "dup", "swapnext", "epoch", "seq" };
+static const char *MUT[] = { "flip", "flip", "flip", "flip", "trunc", "extend", "setlen", "type", "ver", "drop", "dup", "swapnext", "epoch", "seq", "glue_ccs" };
 static const char *INJ[] = { "replay", "replay", "reflect", "cross", "relabel", "garbage", "plain23" };
 
 static Plan c02_gen(uint64_t seed, int tier, uint64_t index) {
@@ -51,6 +51,18 @@ static const Fam FAMS[] = {
 static std::vector<Plan> c02_fixed(int tier) {
     std::vector<Plan> v;
     size_t nf = sizeof FAMS / sizeof FAMS[0];
+    // 1..4 forged plaintext CCS records coalesced in front of an honest application record, per family and direction
+    for (size_t f = 0; f < nf; f++) {
+        for (int n = 0; n < 4; n++) {
+            for (int dir = 0; dir < 2; dir++) {
+                Plan p; p.seed = 58000 + f * 100 + (uint64_t) (n * 2 + dir);
+                p.cfg["ver"] = FAMS[f].ver; p.cfg["suite"] = FAMS[f].suite; if (FAMS[f].sid) { p.cfg["sid_kind"] = FAMS[f].sid; }
+                p.ops.push_back(Op("hs")); p.ops.push_back(Op("send", dir, 40)); p.ops.push_back(Op("pump"));
+                p.ops.push_back(Op("arm", dir, n, 0, 0, "glue_ccs")); p.ops.push_back(Op("send", dir, 100 + 7 * n)); p.ops.push_back(Op("send", dir, 33)); p.ops.push_back(Op("pump"));
+                v.push_back(p);
+            }
+        }
+    }
     for (size_t f = 0; f < nf; f++) {
         // a 3-byte payload: header 5/13 + explicit IV/nonce + body + MAC/tag + pad <= ~80 bytes -> <= 640 bits
         int maxbits = tier ? 640 : 0;
@@ -131,7 +143,11 @@ static RunResult c02_exec(const Plan &p) {
                 }
                 if (o.tampered[dir] && o.tamper_consumed[dir] && o.tamper_receiver_complete[dir]) {
                     size_t after = rcv.delivered.size() - o.delivered_before_tamper[dir];
-                    if (after > 0) {
+                    // inserted plaintext change_cipher_spec records: TLS 1.3 endpoints of this library ignore them at any time (RFC 8446 5 only lets them
+                    // be dropped until the peer's Finished); that tolerance leaves the delivered stream intact, which is all this property asks
+                    bool ccs_only = pr.pc.version == v_tls_1_3 && (o.tamper_kind[dir] == "glued_ccs" || o.tamper_kind[dir] == "inject_ccs");
+                    if (ccs_only) { res.count("probe.tls13_ccs_tolerated_after_handshake"); }
+                    if (after > 0 && !ccs_only) {
                         res.violate("data_after_tamper", ctx, std::to_string(after) + " chunk(s) delivered from or after the first tampered record (" + o.tamper_kind[dir] + ")");
                         break;
                     }
